@@ -57,6 +57,10 @@ CHECKS = {
    text="Interoperability with an independent implementation (refdtls: own PRF, key-block partition, GCM/CCM/ChaCha20/CBC record layouts, RFC 9146 additional data and MAC input, HKDF-Expand-Label with the dtls13 prefix, record nonce and sequence-number encryption, RFC 3610 CCM written from the RFC) on the records and secrets that simulated sessions actually produce, in both directions: the reference opens and recomputes everything the library emits, and the library must accept what the reference seals.",
    note="The formulas are pure functions; this check covers their input space only as far as simulated sessions reach (suites x layouts x sizes x EMS x resumption), and says so. ECDHE premaster secrets are not visible, so master-secret derivation is recomputed only for plain-PSK suites; the DTLS 1.3 key schedule above the traffic secrets (early/handshake/master secret, exporter) is not recomputed.",
    technique="deterministic simulation with an independent reference implementation as passive decoder and active record forger"),
+ "C05": dict(level="fault_enumeration", design="§5 C05",
+   text="Each captured protected record of an established session is presented to the real receiver in dozens of mutated forms (bit, field, truncation, extension, splice and cross-session mutants) before and after the genuine copy, for every suite family, CID layout and both protocol versions; the independent reference model, not the library, decides whether a mutant still authenticates, and the receiver's socket and Read are watched after every single injection.",
+   note="Mutants that stop claiming protection (epoch rewritten to 0, type rewritten to change_cipher_spec) are held only to 'Read returns only what was written': the statement's vanish clause does not cover them. Mutants are sampled per record, not exhaustively enumerated over all bit positions.",
+   technique="deterministic simulation: per-record mutant injection judged by an independent reference decoder"),
 }
 
 NOT_YET = {}
